@@ -263,6 +263,91 @@ def clause6(P, res):
             res.holds(rid, nm, "reaches no park / slow path / yield", where=f"{b.file}:{b.line}")
 
 
+def const_int(b, op, depth=0):
+    """Integer value of an operand built from named constants with | & ! (how the lock words' masks are written)."""
+    k = b.const_of_operand(op)
+    if k is not None:
+        return k.get("v")
+    p = mir.op_place(op)
+    if p is None or p[1] or depth > 6:
+        return None
+    e = b.single_def(p[0])
+    if e is None or e.kind != "assign":
+        return None
+    r = e.data["r"]
+    if r["k"] == "bin" and r["op"] in ("BitOr", "BitAnd"):
+        x, y = const_int(b, r["a"], depth + 1), const_int(b, r["b"], depth + 1)
+        if x is None or y is None:
+            return None
+        return x | y if r["op"] == "BitOr" else x & y
+    if r["k"] == "un" and r["op"] == "Not":
+        x = const_int(b, r["a"], depth + 1)
+        return None if x is None else (~x) & 0xFFFFFFFFFFFFFFFF
+    return None
+
+
+def mask_gate(b, blk):
+    """A switch on `(x & M) != 0` (or `== 0`): (M, edges taken when some bit of M is set), else None."""
+    s = b.switch_source(blk)
+    if not s or s["kind"] != "cmp" or s["op"] not in ("Ne", "Eq"):
+        return None
+    for x, z in ((s["a"], s["b"]), (s["b"], s["a"])):
+        if const_int(b, z) != 0:
+            continue
+        p = mir.op_place(x)
+        e = b.single_def(p[0]) if p and not p[1] else None
+        if e is None or e.kind != "assign" or e.data["r"]["k"] != "bin" or e.data["r"]["op"] != "BitAnd":
+            continue
+        r = e.data["r"]
+        m = const_int(b, r["b"])
+        if m is None:
+            m = const_int(b, r["a"])
+        if m is None:
+            continue
+        setlab = "true" if (s["op"] == "Ne") != bool(s.get("neg")) else "false"
+        return m, b.edges_by_label(blk).get(setlab, [])
+    return None
+
+
+def clause7(P, res):
+    rid = "C10-7"
+    res.rule(rid, "every class of sleeper is visible to every wake gate: a path that links a waiter and then sleeps announces itself by OR-ing a mask into the lock "
+                  "word; an unlock* that wakes only `if prev & M != 0` must test a mask M that intersects every such announced mask — otherwise that class of waiter "
+                  "sleeps through the release (masks are evaluated from the constants in the source)")
+    for lock, mod in (("HybridMutex", "fibre::sync::mutex"), ("HybridRwLock", "fibre::sync::rwlock")):
+        announcers, gates = [], []
+        for b in sync_bodies(P):
+            if not (b.id.startswith(mod + "::") or b.id.startswith("fibre::<sync::" + mod.rsplit("::", 1)[1])):
+                continue
+            sleeps = any(e.callee_full in pr.PARK_PRIMS or e.method in ("park", "park_timeout") for e in b.calls()) or \
+                any(e.kind == "assign" and e.data["r"]["k"] == "agg" and e.data["r"].get("variant") == "Pending" for e in b.events)
+            if sleeps:
+                for e in b.calls():
+                    if e.is_atomic and e.method == "fetch_or" and b.path_of_operand(e.args[0]).endswith(".state"):
+                        v = const_int(b, e.args[1])
+                        if v is None:
+                            res.unclassified(rid, f"{b.id}:fetch_or", f"announcement mask at {e.loc} is not a constant expression", where=e.loc)
+                        else:
+                            announcers.append((b, e, v))
+            if re.search(r"::(unlock|unlock_read|unlock_write)$", b.id):
+                for w in [e for e in b.calls() if e.method in ("wake_next", "wake_waiters")]:
+                    for blk in range(len(b.blocks)):
+                        g = mask_gate(b, blk)
+                        if g and g[1] and b.edges_dominate(g[1], w.pos):
+                            gates.append((b, w, g[0]))
+        if not announcers or not gates:
+            res.violated(rid, f"{lock}:shape", f"expected announcing sleepers and mask-gated wakes, found {len(announcers)} / {len(gates)}")
+            continue
+        for gb, w, m in gates:
+            for ab, e, v in announcers:
+                key = f"{gb.name}<-{ab.id.split('::', 2)[-1]}"
+                if v & m:
+                    res.holds(rid, key, f"wake gate mask {m:#x} sees announcement mask {v:#x}", where=w.loc)
+                else:
+                    res.violated(rid, key, f"{gb.id} wakes only if prev & {m:#x} != 0, but the sleeper at {e.loc} announces itself with mask {v:#x}: "
+                                 "when it is the only kind of waiter queued the release wakes nobody and it sleeps forever", where=w.loc)
+
+
 def run(P, ctx):
     res = Result("C10")
     res.extra["explanation"] = "Acquisition/guard, release/wake, queue-and-recheck, cancellation and type-level shapes of HybridMutex and HybridRwLock."
@@ -274,4 +359,5 @@ def run(P, ctx):
     clause4(P, res)
     clause5(P, res)
     clause6(P, res)
+    clause7(P, res)
     return res
